@@ -32,7 +32,7 @@ var c18 = core.Register(&core.Prop{
 				out = append(out, "coverage floor: "+b+" never checked")
 			}
 		}
-		for _, k := range []string{"ties", "negative_ties", "law:sqrt-square", "law:exp-ln", "law:ln-exp", "law:log-pow10", "tofloat_nan_cases"} {
+		for _, k := range []string{"ties", "negative_ties", "law:sqrt-square", "law:exp-ln", "law:ln-exp", "law:log-pow10", "tofloat_nan_cases", "through_locals", "bitop_exponent_spellings"} {
 			if c[k] == 0 {
 				out = append(out, "coverage floor: no "+k)
 			}
@@ -68,7 +68,74 @@ func decElem(w *core.W, c *NumFnCase, src string, data map[string]interface{}) (
 		w.Violation("numeric-builtins", "C18/not-a-number:"+c.Fn, c, "a number", show(v), src)
 		return ref.Dec{}, nil, false
 	}
+	if data == nil && !c.Str && core.Hash64(src)%3 == 0 && !throughLocals(w, c, src, d) {
+		return ref.Dec{}, nil, false
+	}
 	return obs.DecOf(d), d, true
+}
+
+// replaceOperand replaces the occurrences of operand text a in src that stand alone (delimited by
+// the start/end, parentheses, commas, blanks or a prefix operator) by with.
+func replaceOperand(src, a, with string) string {
+	var sb strings.Builder
+	for i := 0; i < len(src); {
+		if strings.HasPrefix(src[i:], a) && (i == 0 || strings.IndexByte("( ,~", src[i-1]) >= 0) && (i+len(a) == len(src) || strings.IndexByte(") ,", src[i+len(a)]) >= 0) {
+			sb.WriteString(with)
+			i += len(a)
+			continue
+		}
+		sb.WriteByte(src[i])
+		i++
+	}
+	return sb.String()
+}
+
+// throughLocals evaluates the same expression with its operands held in locals, twice in one formula, and
+// reads the locals afterwards: a function or operator computes on its operands, it does not consume them -
+// the second application gives the same number and the operands are still exactly what was bound.
+func throughLocals(w *core.W, c *NumFnCase, src string, direct *decimal.Big) bool {
+	body := src
+	var binds, reads, lits []string
+	for i := range c.Args {
+		l := fmt.Sprintf("$a%d", i)
+		nb := replaceOperand(body, c.argSrc(i), l)
+		if nb == body {
+			continue
+		}
+		body = nb
+		binds = append(binds, l+" = "+c.argSrc(i))
+		reads = append(reads, l)
+		lits = append(lits, c.argSrc(i))
+	}
+	if len(binds) == 0 {
+		return true
+	}
+	w.Count("through_locals")
+	full := strings.Join(binds, ", ") + ", [" + body + ", " + body + ", " + strings.Join(reads, ", ") + ", " + strings.Join(lits, ", ") + "]"
+	v, err, panicked, pv := resolveIn(nil, full)
+	w.Eval(1)
+	if panicked || err != nil {
+		w.Violation("numeric-builtins", "C18/error-through-locals:"+c.Fn, c, "as for "+src, fmt.Sprint(pv, err), full)
+		return false
+	}
+	arr, _ := v.([]interface{})
+	if len(arr) != 2+2*len(reads) {
+		return true
+	}
+	want := obs.SnapshotValues(direct)
+	for k := 0; k < 2; k++ {
+		if got := obs.SnapshotValues(arr[k]); got != want {
+			w.Violation("numeric-builtins", "C18/operand-in-local:"+c.Fn, c, show(direct), show(arr[k]), fmt.Sprintf("application %d of %s with the operands held in locals (%s) differs from %s", k+1, body, full, src))
+			return false
+		}
+	}
+	for k := range reads {
+		if a, b := obs.SnapshotValues(arr[2+k]), obs.SnapshotValues(arr[2+len(reads)+k]); a != b {
+			w.Violation("numeric-builtins", "C18/operand-consumed:"+c.Fn, c, show(arr[2+len(reads)+k]), show(arr[2+k]), fmt.Sprintf("after %s the local %s no longer holds the number it was bound to (%s)", body, reads[k], full))
+			return false
+		}
+	}
+	return true
 }
 
 const c18Tol = 5e-15
@@ -504,6 +571,39 @@ func runC18(w *core.W) {
 			run(&NumFnCase{Fn: op, Args: []string{x, y}})
 		}
 		run(&NumFnCase{Fn: "~", Args: []string{x}})
+		// the same integers spelled with an exponent (a decimal whose coefficient is not the integer itself)
+		ex := func(v string) string {
+			neg := strings.HasPrefix(v, "-")
+			v = strings.TrimPrefix(v, "-")
+			t := strings.TrimRight(v, "0")
+			if t == "" {
+				return "0e0"
+			}
+			var out string
+			switch r.Intn(3) {
+			case 0:
+				out = t + "e" + strconv.Itoa(len(v)-len(t))
+			case 1:
+				out = t[:1] + "." + t[1:] + "e" + strconv.Itoa(len(v)-1)
+				if len(t) == 1 {
+					out = t + "e" + strconv.Itoa(len(v)-1)
+				}
+			default:
+				out = v + "000e-3"
+			}
+			if neg {
+				out = "-" + out
+			}
+			return out
+		}
+		x10 := strconv.FormatInt(int64(r.Intn(1<<20))*[]int64{10, 100, 1000, 1000000}[r.Intn(4)], 10)
+		for _, pr := range [][2]string{{ex(x), y}, {x, ex(y)}, {ex(x10), "1023"}, {x10, ex(x10)}} {
+			for _, op := range []string{"&", "|", "^"} {
+				run(&NumFnCase{Fn: op, Args: []string{pr[0], pr[1]}})
+			}
+			run(&NumFnCase{Fn: "~", Args: []string{pr[0]}})
+			w.Count("bitop_exponent_spellings")
+		}
 		// strings for toFloat / toInt / finite
 		strs := []string{a, "+" + pos, pos + "e2", "abc", "12abc", "1,5", " 1", "1 ", "", "0x10", "1e", "--1", "1.2.3", "one", "1_000", "٣", "１２", "Infinity", "NaN", "-", ".", "e5", "1e5", "-.5", "5."}
 		s := strs[r.Intn(len(strs))]
